@@ -11,7 +11,6 @@
 package ibb // import "mellium.im/xmpp/ibb"
 
 import (
-	"bytes"
 	"context"
 	"encoding/base64"
 	"encoding/xml"
@@ -213,8 +212,6 @@ func handlePayload(h *Handler, errResp errorResponder, p dataPayload, e xmlstrea
 		}))
 		return err
 	}
-	conn.seq++
-
 	conn.readLock.Lock()
 	defer conn.readLock.Unlock()
 	var inputErr base64.CorruptInputError
@@ -228,8 +225,10 @@ func handlePayload(h *Handler, errResp errorResponder, p dataPayload, e xmlstrea
 		}))
 		return err
 	}
-	b64Reader := base64.NewDecoder(base64.StdEncoding, bytes.NewReader(p.Data))
-	_, err := conn.readBuf.ReadFrom(b64Reader)
+	// Decode all of the data before touching the stream so that a packet that
+	// gets refused leaves the buffer and the sequence counter alone.
+	decoded := make([]byte, dataLen)
+	n, err := base64.StdEncoding.Decode(decoded, p.Data)
 	if errors.As(err, &inputErr) {
 		_, err := xmlstream.Copy(e, errResp.Error(stanza.Error{
 			Type:      stanza.Cancel,
@@ -237,6 +236,11 @@ func handlePayload(h *Handler, errResp errorResponder, p dataPayload, e xmlstrea
 		}))
 		return err
 	}
+	if err != nil {
+		return err
+	}
+	conn.seq++
+	_, err = conn.readBuf.Write(decoded[:n])
 	if err != nil {
 		return err
 	}
